@@ -206,7 +206,7 @@ def sim_sem_unlink(name):
     if sem is None:
         raise FileNotFoundError(2, "No such file or directory")
     sem.linked = False
-    k.log.append(("sem_unlink", name, cur.proc.pid if cur else 0))
+    k.log.append(("sem_unlink", name, cur.proc.pid if cur else 0, cur.tid if cur else -1))
 
 
 # ------------------------------------------------------------------ fake modules
